@@ -186,6 +186,68 @@ func c01Point(cs c01Case) (bad bool, kind, msg string, got float64) {
 	return false, "", "ok", val
 }
 
+// c01AllChannels decodes a three-channel colour through an entry point and checks every channel
+// against the EOTF of its own code (used for the companion patterns, where the interesting failure
+// is a channel receiving another channel's value).
+func c01AllChannels(cs c01Case) (bad bool, msg string) {
+	s := spaceByName(cs.Space)
+	w := c01Width(cs.Entry)
+	max := 255
+	if w == 16 {
+		max = 65535
+	}
+	o1, o2 := c01OthersP(cs.Code, max, cs.Pattern)
+	var v [3]int
+	v[cs.Channel], v[(cs.Channel+1)%3], v[(cs.Channel+2)%3] = cs.Code, o1, o2
+	for k := 0; k < 3; k++ {
+		// decode with channel k "under test" but the very same colour: rotate the roles
+		got, quant, ok := c01DecodeColour(s, cs.Entry, v, k)
+		if !ok {
+			return false, "n/a"
+		}
+		want := s.Ref.Curve.EOTF(float64(v[k]) / float64(max))
+		if quant {
+			if d := math.Abs(got - 65535*want); !(d <= c01QuantTol) {
+				return true, fmt.Sprintf("%s %s colour %v: channel %d linearised to %v, published EOTF of its code %d gives %.4f", cs.Space, cs.Entry, v, k, got, v[k], 65535*want)
+			}
+		} else if d := math.Abs(got - want); !(d <= c01Tol) {
+			return true, fmt.Sprintf("%s %s colour %v: channel %d decoded to %.9g, published EOTF of its code %d gives %.9g", cs.Space, cs.Entry, v, k, got, v[k], want)
+		}
+	}
+	return false, "ok"
+}
+
+// c01DecodeColour decodes the colour v (three codes) and returns channel k of the result.
+func c01DecodeColour(s *libSpace, entry string, v [3]int, k int) (val float64, quant bool, ok bool) {
+	switch entry {
+	case "ColorFromNRGBA":
+		c, _ := s.FromNRGBA(color.NRGBA{R: uint8(v[0]), G: uint8(v[1]), B: uint8(v[2]), A: 255})
+		return float64(pick3(k, c.R, c.G, c.B)), false, true
+	case "ColorFromRGBA":
+		c, _ := s.FromRGBA(color.RGBA{R: uint8(v[0]), G: uint8(v[1]), B: uint8(v[2]), A: 255})
+		return float64(pick3(k, c.R, c.G, c.B)), false, true
+	}
+	var in color.Color
+	switch {
+	case hasSuffix(entry, "/color.RGBA64"):
+		in = color.RGBA64{R: uint16(v[0]), G: uint16(v[1]), B: uint16(v[2]), A: 65535}
+	case hasSuffix(entry, "/color.NRGBA64"):
+		in = color.NRGBA64{R: uint16(v[0]), G: uint16(v[1]), B: uint16(v[2]), A: 65535}
+	case hasSuffix(entry, "/color.RGBA"):
+		in = color.RGBA{R: uint8(v[0]), G: uint8(v[1]), B: uint8(v[2]), A: 255}
+	case hasSuffix(entry, "/color.NRGBA"):
+		in = color.NRGBA{R: uint8(v[0]), G: uint8(v[1]), B: uint8(v[2]), A: 255}
+	default:
+		return 0, false, false
+	}
+	if hasPrefix(entry, "ColorFromEncodedColor/") {
+		c, _ := s.FromEncoded(in)
+		return float64(pick3(k, c.R, c.G, c.B)), false, true
+	}
+	c := s.Linearise(in)
+	return float64(pick3u(k, c.R, c.G, c.B)), true, true
+}
+
 func runC01(r *core.Run) {
 	r.Rule = "every 8-bit and 16-bit code x 4 spaces x every public decode entry point x channel position (enumerated, so every case is distinct); non-trivial = code strictly between 0 and the maximum"
 	r.Exhaustive = true
@@ -266,10 +328,10 @@ func runC01(r *core.Run) {
 					}
 					for code := (ch + pattern) % step; code < n; code += step {
 						cs := c01Case{j.s.Name, j.entry, ch, code, pattern}
-						bad, kind, msg, _ := c01Point(cs)
-						evals++
+						bad, msg := c01AllChannels(cs)
+						evals += 3
 						if bad {
-							r.Violate("point", fmt.Sprintf("%s/%s/%s/pattern%d", j.s.Name, j.entry, kind, pattern), msg+fmt.Sprintf(" (companion pattern %d)", pattern), cs)
+							r.Violate("pattern", fmt.Sprintf("%s/%s/pattern%d", j.s.Name, j.entry, pattern), msg+fmt.Sprintf(" (companion pattern %d)", pattern), cs)
 						}
 					}
 				}
@@ -328,6 +390,9 @@ func replayC01(stage string, raw json.RawMessage) (bool, string, error) {
 		return false, "", fmt.Errorf("unknown space %q", cs.Space)
 	}
 	switch stage {
+	case "pattern":
+		bad, msg := c01AllChannels(cs)
+		return bad, msg, nil
 	case "8vs16":
 		var a, b float32
 		if s.From8 != nil {
